@@ -9,6 +9,11 @@ import BklProofs.C17
 import BklProofs.Lemmas.C06Layered
 namespace Bkl
 
+-- BklProofs/C17.lean now imports BklProofs.Lemmas.ToolsCliProofs (tool-main theorems), which brings
+-- in the simp lemma `R_pure_eq` of Lemmas/Files.lean; it is switched off here so that the `simp`
+-- calls below behave exactly as before (several proofs end in `simp […]; rfl`).
+attribute [-simp] R_pure_eq
+
 /-! ## Specification -/
 
 /-- a string the output stage must reject: exactly "$required", or `$` followed by a
